@@ -49,7 +49,12 @@ static void wait_flag(volatile int *f) { while (__atomic_load_n(f, __ATOMIC_ACQU
 static void set_flag(volatile int *f) { __atomic_store_n(f, 1, __ATOMIC_RELEASE); raw_futex(f, FUTEX_WAKE, 1); }
 static void tr(const char *fmt, ...) __attribute__((format(printf, 1, 2)));
 #include <stdarg.h>
-static void tr(const char *fmt, ...) { if (tracefd < 0) return; char b[512]; va_list ap; va_start(ap, fmt); int n = vsnprintf(b, sizeof b, fmt, ap); va_end(ap); if (n > (int)sizeof b) n = sizeof b; if (syscall(SYS_write, tracefd, b, n) < 0) {} }
+static pid_t trace_pid;
+static void tr(const char *fmt, ...) { if (tracefd < 0) return;
+    /* a forked child (also inside fork()'s atfork handlers, before vs_fork() returns) must never write into the parent's trace */
+    pid_t me = (pid_t)syscall(SYS_getpid);
+    if (me != trace_pid) { const char *tp = getenv("VS_TRACE"); char nb[4096]; snprintf(nb, sizeof nb, "%s.child%d", tp ? tp : "/dev/null", (int)me % 100000); tracefd = open(nb, O_WRONLY | O_CREAT | O_APPEND | O_CLOEXEC, 0644); trace_pid = me; if (tracefd < 0) return; }
+    char b[512]; va_list ap; va_start(ap, fmt); int n = vsnprintf(b, sizeof b, fmt, ap); va_end(ap); if (n > (int)sizeof b) n = sizeof b; if (syscall(SYS_write, tracefd, b, n) < 0) {} }
 
 static int mslot(void *a) { for (int i = 0; i < MAXM; i++) if (M[i].addr == a) return i; for (int i = 0; i < MAXM; i++) if (!M[i].addr) { M[i].addr = a; M[i].owner = -1; M[i].count = 0; return i; } return 0; }
 static int op_enabled(int t) {
@@ -96,7 +101,7 @@ void vs_init(int nthreads) {
     while (p && *p && nprefix < 4096) { prefix[nprefix++] = (int)strtol(p, (char **)&p, 10); if (*p == ',') p++; }
     if (getenv("VS_FN")) fnpoints = 1;
     if (getenv("VS_HORIZON")) horizon = atoi(getenv("VS_HORIZON"));
-    const char *tp = getenv("VS_TRACE"); if (tp) tracefd = open(tp, O_WRONLY | O_CREAT | O_TRUNC | O_CLOEXEC, 0644);
+    const char *tp = getenv("VS_TRACE"); if (tp) tracefd = open(tp, O_WRONLY | O_CREAT | O_TRUNC | O_CLOEXEC, 0644); trace_pid = getpid();
 }
 void vs_thread_begin(int t) {
     vs_tid = t; T[t].op = VS_START; T[t].obj = NULL; T[t].state = ST_READY;
@@ -160,7 +165,7 @@ pid_t vs_fork(void) {
     vs_nofn++; pid_t p = fork(); vs_nofn--;
     if (p == 0 && t >= 0) {
         for (int i = 0; i < NT; i++) if (i != t && T[i].state != ST_DONE) T[i].state = ST_GONE;
-        const char *tp = getenv("VS_TRACE"); if (tp) { char b[4096]; snprintf(b, sizeof b, "%s.child%d", tp, (int)getpid() % 100000); tracefd = open(b, O_WRONLY | O_CREAT | O_TRUNC | O_CLOEXEC, 0644); tr("{\"child_of_step\":%d}\n", step); }
+        tr("{\"child_of_step\":%d}\n", step);
         nprefix = 0;   /* the child runs its single thread with default choices */
     }
     return p;
